@@ -291,11 +291,18 @@ func (t *Thread) end(args []Value, err error, exception interface{}) {
 func (t *Thread) cleanupCloseStackAtEnd(err *error) (termination interface{}) {
 	defer func() {
 		if r := recover(); r != nil {
-			if _, ok := r.(ContextTerminationError); !ok {
+			switch r.(type) {
+			case ContextTerminationError:
+				t.closeStack.truncate(0)
+				termination = r
+			case threadClose:
+				// The thread was closed (coroutine.close) while it was suspended
+				// in one of the handlers: that handler is abandoned, the
+				// remaining values are still closed.
+				termination = t.cleanupCloseStackAtEnd(err)
+			default:
 				panic(r)
 			}
-			t.closeStack.truncate(0)
-			termination = r
 		}
 	}()
 	*err = t.cleanupCloseStack(nil, 0, *err) // TODO: not nil
